@@ -565,11 +565,13 @@ use tokio::sync::{mpsc, oneshot};"""
             final(t).sent == old(t).sent || (%(g)s),  // @C09+C06.redirector_wrapper.%(m)s.at_most_one_message
 """ % dict(m=meth, ok=ok, w=what, g=GREW))
             for (meth, val) in (("update_bpf_object", "a == Some(bpf_object)"), ("clear_bpf_object", "a is None")):
-                u.take_fn(rdw, P + meth, ghost=RD_T, ghost_calls=[("set_bpf_object", "all", "Tracked(t)")], contract="""
+                # E4 on every call of a one-message wrapper inside it (whatever it is after an edit: judged by the contract, not by the extraction)
+                names = sorted(set(c["callee"] for c in rdw.item(P + meth, "fn")["calls"] if c["kind"] == "method" and c["callee"] in [w[0] for w in RD_WRAPPERS]))
+                u.take_fn(rdw, P + meth, ghost=RD_T, ghost_calls=[(n, "all", "Tracked(t)") for n in names], contract="""
         ensures
-            r is Err ==> final(t).gone,
+            r is Err ==> final(t).gone,  // @C09+C06.redirector_wrapper.%(m)s.fails_only_if_actor_gone
             r is Ok ==> %(g)s && (final(t).sent.last() matches RedirectorAction::SetBpfObject { bpf_object: a, response: _ } && %(val)s),  // @C09+C06.redirector_wrapper.%(m)s.one_SetBpfObject_with_that_value
-            final(t).sent == old(t).sent || (%(g)s),
+            final(t).sent == old(t).sent || (%(g)s),  // @C09+C06.redirector_wrapper.%(m)s.at_most_one_message
 """ % dict(g=GREW, val=val, m=meth))
         FN = "RedirectorSharedState::start_new"
         it = rdw.item(FN, "fn")
